@@ -138,10 +138,24 @@ const textA1Atomic = "A1-atomic: fields declared atomics-only (capture state mac
 const textA1Immutable = "A1-immutable: fields that are immutable after construction are stored only while the object is fresh (in its constructor)"
 const textA1Confined = "A1-confined: per-connection session state (name, user, MULTI queue, watches, protocol version, …) is never touched through a *clientState obtained from the client registry (CLIENT LIST / CLIENT KILL callbacks); selectedDb/ds need clientState.mu for such foreign reads; the connection buffer and socket state are touched only from the connection's run loop"
 
+// a1ModesOnly restricts ruleA1Modes to the named fields ("clientState.respVersion", ...); nil = all.
+var a1ModesOnly map[string]bool
+
+func ruleA1ModesFor(fields ...string) func(*Ctx) {
+	return func(c *Ctx) {
+		a1ModesOnly = map[string]bool{}
+		for _, f := range fields {
+			a1ModesOnly[f] = true
+		}
+		defer func() { a1ModesOnly = nil }()
+		ruleA1Modes(c)
+	}
+}
+
 func ruleA1Modes(c *Ctx) {
-	c.S.Rule("A1-atomic", textA1Atomic, 4)
-	c.S.Rule("A1-immutable", textA1Immutable, 10)
-	c.S.Rule("A1-confined", textA1Confined, 10)
+	c.S.Rule("A1-atomic", textA1Atomic, 0)
+	c.S.Rule("A1-immutable", textA1Immutable, 0)
+	c.S.Rule("A1-confined", textA1Confined, 1)
 	rm := c.M.Req()
 	lm := rm.lm
 	gt := rm.gt
@@ -191,7 +205,7 @@ func ruleA1Modes(c *Ctx) {
 	for _, fn := range c.SrcFuncs() {
 		for _, a := range rm.accesses[fn] {
 			g, ok := gt.lookup(a)
-			if !ok {
+			if !ok || (a1ModesOnly != nil && !a1ModesOnly[a.Name]) {
 				continue
 			}
 			pos := c.Pos(c.InstrPos(a.In))
@@ -246,6 +260,9 @@ func ruleA1Modes(c *Ctx) {
 	for _, fn := range c.SrcFuncs() {
 		for _, a := range rm.accesses[fn] {
 			g, ok := gt.lookup(a)
+			if a1ModesOnly != nil && !a1ModesOnly[a.Name] {
+				continue
+			}
 			if ok && g.mode == gConfined && a.Owner == "clientState" && (a.Base == nil || !foreign.tainted[a.Base]) {
 				nOwn++
 				c.S.OK("A1-confined", rm.accKey(a), c.Pos(c.InstrPos(a.In)), "accessed through the connection's own state (cmdContext.cs / receiver), never through a registry value")
@@ -256,7 +273,7 @@ func ruleA1Modes(c *Ctx) {
 	for _, fn := range c.SrcFuncs() {
 		for _, a := range rm.accesses[fn] {
 			g, ok := gt.lookup(a)
-			if !ok || g.mode != gConfined || a.Owner != "clientCxn" {
+			if !ok || g.mode != gConfined || a.Owner != "clientCxn" || (a1ModesOnly != nil && !a1ModesOnly[a.Name]) {
 				continue
 			}
 			key := rm.accKey(a)
